@@ -4,9 +4,30 @@
 package peerstream
 
 import (
+	"strings"
+
 	"github.com/hashicorp/consul/agent/structs"
 	"github.com/hashicorp/consul/types"
 )
+
+// The catalog identifies nodes, service instances and checks without regard to letter case
+// (every state store key is lower-cased, names are compared with strings.EqualFold). The
+// lookup tables used to reconcile a received snapshot with the stored instances have to
+// agree with it: an instance that comes back as node "node1" after having been stored as
+// "Node1" is the same row, not one to register and another one to deregister.
+func nodeKey(name string) string { return strings.ToLower(name) }
+
+func serviceKey(sid structs.ServiceID) structs.ServiceID {
+	sid.ID = strings.ToLower(sid.ID)
+	return sid
+}
+
+func checkKey(id types.CheckID) types.CheckID { return types.CheckID(strings.ToLower(string(id))) }
+
+func serviceNameKey(sn structs.ServiceName) structs.ServiceName {
+	sn.Name = strings.ToLower(sn.Name)
+	return sn
+}
 
 // healthSnapshot represents a normalized view of a set of CheckServiceNodes
 // meant for easy comparison to aid in differential synchronization
@@ -14,7 +35,7 @@ type healthSnapshot struct {
 	// Nodes is a map of a node name to a nodeSnapshot. Ideally we would be able to use
 	// the types.NodeID and assume they are UUIDs for the map key but Consul doesn't
 	// require a NodeID. Therefore we must key off of the only bit of ID material
-	// that is required which is the node name.
+	// that is required which is the node name (see nodeKey).
 	Nodes map[string]*nodeSnapshot
 }
 
@@ -52,19 +73,19 @@ func newHealthSnapshot(all []structs.CheckServiceNode, partition, peerName strin
 		if instance.Node.Node == "" {
 			panic("TODO(peering): data should always have a node name")
 		}
-		nodeSnap, ok := snap.Nodes[instance.Node.Node]
+		nodeSnap, ok := snap.Nodes[nodeKey(instance.Node.Node)]
 		if !ok {
 			nodeSnap = &nodeSnapshot{
 				Node:     instance.Node,
 				Services: make(map[structs.ServiceID]*serviceSnapshot),
 			}
-			snap.Nodes[instance.Node.Node] = nodeSnap
+			snap.Nodes[nodeKey(instance.Node.Node)] = nodeSnap
 		}
 
 		if instance.Service.ID == "" {
 			panic("TODO(peering): data should always have a service ID")
 		}
-		sid := instance.Service.CompoundServiceID()
+		sid := serviceKey(instance.Service.CompoundServiceID())
 
 		svcSnap, ok := nodeSnap.Services[sid]
 		if !ok {
@@ -79,7 +100,7 @@ func newHealthSnapshot(all []structs.CheckServiceNode, partition, peerName strin
 			if c.CheckID == "" {
 				panic("TODO(peering): data should always have a check ID")
 			}
-			svcSnap.Checks[c.CheckID] = c
+			svcSnap.Checks[checkKey(c.CheckID)] = c
 		}
 	}
 
